@@ -36,6 +36,10 @@ TEXT = {
    text='Rely/guarantee refinement proof on the real lockfree_ring_buffer_trypush/trypop (woven header inlines) against the four-action system CLAIM_W/WRITE/CLAIM_R/CLEAR over one symbolic observed absolute index (any index, any of 2^62 values, index & mask wrap included): adversarial interference (any high/low/slot contents satisfying the invariant and what this operation has read) before every access; read hooks record facts (value of low/high/slot seen), the step monitor checks each CAS against them (claim only from the value read, slot seen empty with room left / slot seen full below a high value read earlier), that a write lands only on the claimed slot, never on an occupied slot, never wipes another index; failure only for a stated reason (slot busy, looked full/empty, CAS lost) and without effect; popped value = the value pushed for that index. Capacity-independent lemma layer (size = 2^p, p <= 31): every step of another operation, reads included, preserves the observed-index invariant, establishes/keeps its own knowledge and never invalidates mine (so the rely assumed in the refinement is exactly what verified code can do); a write never lands on an occupied cell; never more than size items; popped value is the pushed one.',
    note='Refinement groups are bounded in capacity (labelled bounded, not counted as proved): capacity symbolic in 2^1..2^4 (quick) / 2^1..2^6 (thorough) over a fixed backing store (larger capacities not covered: CBMC array post-processing); SC; indices below 2^62; blocking wrappers not separately proved.',
    technique='CBMC harness-mode contract proof on woven real code, rely/guarantee with symbolic observer index and read hooks', ref='5 C16, Appendix A.4'),
+ 'C10': dict(
+   text='Unbounded contract proof on the real fiber_scheduler_schedule/fiber_scheduler_next (DFCC, the pop loop of next closed by a loop contract, thieves may take from the top of either deque at every access) with a ranking ghost for one observed ready fiber X: schedule() of another fiber never increases the number of owner pops that precede X while X sits in the deque being drained (at most +1 while X sits in store_to), and every next() that hands out another fiber strictly decreases it; hence X is bypassed at most len(schedule_from)+len(store_to) times however long the others keep yielding. On the pinned tree the schedule() obligation failed (D1, native witness: three yielding fibers on one kernel thread, runs 0 0 100000); repaired by a one-token fix commit in /repo and recorded as fixed.',
+   note='Deque operations by owner-side contracts (enforced under C02); scheduler used only by its own kernel thread; N-thread rescue by stealing (load_balance) not modelled - the 1-thread bound does not depend on it; SC.',
+   technique='CBMC function+loop contracts (DFCC) on woven real code, ranking ghost for an observed fiber', ref='5 C10, 9 D1'),
 }
 NOT_YET = 'check not built yet at this commit (DESIGN.md section 5 describes the planned contracts)'
 checks, na = [], []
@@ -59,7 +63,7 @@ m = dict(
     setup_cmd='./tools/setup.sh',
     hooks=dict(guard='LIBFIBER_VERIF', enable='no source hooks: the verification build weaves a scratch copy of the functions under contract on every run (tools/weave.py); /repo is compiled unmodified',
                baseline_off_cmd='cmake -G Ninja -B /repo/_build -S /repo && cmake --build /repo/_build && ctest --test-dir /repo/_build -j8 --timeout 900',
-               source_commits=[], add_only=True),
+               source_commits=['8370b08 fix: schedule newly runnable fibers onto store_to (D1, C10)'], add_only=True),
     engines=[dict(name='cbmc-contracts', path='/verif/tools/prove.py', serves_properties=[c['property_id'] for c in checks],
                   kind_free_text='contract-based deductive verification: clang-AST weaver + goto-cc + goto-instrument (DFCC function contracts, loop contracts) + cbmc 6.11 SAT back end; native replay of counterexample tapes with gcc/ASan')],
     checks=checks,
